@@ -9,5 +9,6 @@ def check(ctx):
     flag.flag_definition(ctx, 'C07-R3')
     cropping.no_escape(ctx, 'C07-R4')
     indexing.data_index_state(ctx, 'C07-R5')
+    indexing.positions_are_not_labels(ctx, 'C07-R5')
     ctx.undecided += ['equality of the tables of two related runs (follows from determinism, C09, and from the above: '
                       'nothing above the limit survives into the chunk, everything else is untouched)']
